@@ -11,7 +11,7 @@ from collections.abc import Mapping
 from .ExcludedGcode import EXCLUDE_EXCEPT_FIRST, EXCLUDE_EXCEPT_LAST, EXCLUDE_MERGE
 from .Position import Position
 from .RetractionState import RetractionState
-from .GcodeParser import GcodeParser
+from .GcodeParser import GcodeParser, formatNumber
 
 IGNORE_GCODE_CMD = (None,)
 
@@ -584,7 +584,7 @@ class ExcludeRegionState(object):  # pylint: disable=too-many-instance-attribute
                 # an excluded region no later command re-synchronizes the extruder position, so
                 # tell the printer the position the file now assumes.
                 returnCommands.append(
-                    "G92 E{e}".format(e=self.position.E_AXIS.nativeToLogical())
+                    "G92 E{e}".format(e=formatNumber(self.position.E_AXIS.nativeToLogical()))
                 )
             return returnCommands
         elif (deltaE > 0):
@@ -834,7 +834,7 @@ class ExcludeRegionState(object):  # pylint: disable=too-many-instance-attribute
 
         returnCommands.append(
             # Set logical extruder position
-            "G92 E{e}".format(e=self.position.E_AXIS.nativeToLogical())
+            "G92 E{e}".format(e=formatNumber(self.position.E_AXIS.nativeToLogical()))
         )
 
         def exitCoordinate(axis, lastAxis):
@@ -847,8 +847,8 @@ class ExcludeRegionState(object):  # pylint: disable=too-many-instance-attribute
         newZ = self.position.Z_AXIS.current
         oldZ = self.lastPosition.Z_AXIS.current
         moveZcmd = "G0 F{f} Z{z}".format(
-            f=self.feedRate / self.feedRateUnitMultiplier,
-            z=exitCoordinate(self.position.Z_AXIS, self.lastPosition.Z_AXIS)
+            f=formatNumber(self.feedRate / self.feedRateUnitMultiplier),
+            z=formatNumber(exitCoordinate(self.position.Z_AXIS, self.lastPosition.Z_AXIS))
         )
 
         if (newZ > oldZ):
@@ -860,9 +860,9 @@ class ExcludeRegionState(object):  # pylint: disable=too-many-instance-attribute
             # Move X/Y axes to new position
             # Use G0 ("fast" linear move) as this is a non-extruding move
             "G0 F{f} X{x} Y{y}".format(
-                f=self.feedRate / self.feedRateUnitMultiplier,
-                x=exitCoordinate(self.position.X_AXIS, self.lastPosition.X_AXIS),
-                y=exitCoordinate(self.position.Y_AXIS, self.lastPosition.Y_AXIS)
+                f=formatNumber(self.feedRate / self.feedRateUnitMultiplier),
+                x=formatNumber(exitCoordinate(self.position.X_AXIS, self.lastPosition.X_AXIS)),
+                y=formatNumber(exitCoordinate(self.position.Y_AXIS, self.lastPosition.Y_AXIS))
             )
         )
 
